@@ -26,8 +26,8 @@ C = dict(
         dict(name="shapes3", module="TaskBook", cfg="TaskBook_PlanShapes3.cfg", cap={"quick": 500}, workers=4, tiers=["quick"]),
         dict(name="shapes4", module="TaskBook", cfg="TaskBook_PlanShapes4.cfg", workers=8, tiers=["thorough"]),
         dict(name="targets", module="TaskBook", cfg="TaskBook_PlanTargets.cfg", cap={"quick": 150}, workers=4),
-        dict(name="sim", module="TaskBook", cfg="TaskBook_PlanSim.cfg", simulate={"quick": 300, "thorough": 6000},
-             depth=7, params={"max_tasks": 3}),
+        dict(name="sim", module="TaskBook", cfg="TaskBook_PlanSim.cfg", simulate={"quick": 120, "thorough": 4000},
+             depth=9, params={"max_tasks": 3}),
     ],
     directed="plans/C10.jsonl",
     trace=("TaskBook_Trace", "TaskBook_Trace.cfg"),
